@@ -22,7 +22,10 @@ fn ts_infix_from_path(path: &Path, file_spec: &FileSpec) -> String {
         .to_string_lossy()
         .find("rXXXXX")
         .unwrap();
-    String::from_utf8_lossy(&path.to_string_lossy().as_bytes()[idx..idx + 20]).to_string()
+    // the infix ends at the next dot (or with the name), independent of the length of the format
+    let path_string = path.to_string_lossy();
+    let rest = path_string.get(idx..).unwrap_or_default();
+    rest[..rest.find('.').unwrap_or(rest.len())].to_string()
 }
 
 pub(crate) fn timestamp_from_ts_infix(
